@@ -75,8 +75,14 @@ def run_history(ctx, stream: bytes, ids13, cuts, schedule, garbage_free, case, e
                 return False
         return True
 
+    variant = case.get("chunk_variant", 0)
     for i, ch in enumerate(chunks):
-        q.append(bytearray(ch))
+        # chunk objects as a receiver would produce them: bytearray (documented), bytes, and occasional empty reads
+        if variant == 1 and i % 3 == 1:
+            q.append(bytearray())
+        q.append(bytes(ch) if variant == 2 and i % 2 else bytearray(ch))
+        if variant == 1 and i % 4 == 3:
+            q.append(bytearray())
         appended.extend(ch)
         if schedule == "every" or (schedule == "every2" and i % 2 == 1) or schedule == "twice":
             if not parse(f"after_chunk_{i}"):
@@ -120,10 +126,11 @@ def cut_classes(stream, pkts, cuts):
     return out
 
 
-def k_frag(ctx, packets, ids13, cuts, schedule):
+def k_frag(ctx, packets, ids13, cuts, schedule, chunk_variant=0):
     pk = [bytes.fromhex(p) for p in packets]
     stream = b"".join(pk)
-    case = {"k": "frag", "packets": packets, "ids13": ids13, "cuts": cuts, "schedule": schedule}
+    case = {"k": "frag", "packets": packets, "ids13": ids13, "cuts": cuts, "schedule": schedule, "chunk_variant": chunk_variant}
+    ctx.table("chunk_variant", ("bytearray", "with_empty_chunks", "bytes_and_bytearray")[chunk_variant])
     cc = cut_classes(stream, pk, cuts)
     for c in cc:
         ctx.table("cut_classes", c)
@@ -200,7 +207,7 @@ def k_random(ctx, seed):
         start = sum(len(p) for p in pk[:i])
         cuts = sorted(set(cuts) | {start + r.choice((1, 2, 3, 4, 5, 6, len(pk[i]) - 1))})
         cuts = [c for c in cuts if 0 < c < len(stream)]
-    k_frag(ctx, [p.hex() for p in pk], ids13, cuts, r.choice(SCHEDULES))
+    k_frag(ctx, [p.hex() for p in pk], ids13, cuts, r.choice(SCHEDULES), r.choice((0, 0, 1, 2)))
 
 
 KINDS = {"frag": k_frag, "garbage": k_garbage, "random": k_random}
